@@ -16,6 +16,9 @@ import PyTough.Proofs.ListingFile
 import PyTough.Proofs.ListingSeriesStep
 import PyTough.Proofs.ListingSeriesTimes
 import PyTough.Proofs.ListingSeriesTerm
+import PyTough.Proofs.ListingSeries2Aut
+import PyTough.Proofs.ListingSeries2Region
+import PyTough.Props.C05
 
 namespace Props.C06
 open Py Model Model.Listing Proofs.History Proofs.SeriesStep Proofs.SeriesTimes
@@ -103,6 +106,135 @@ example : exT.data.size = exT.rows.size ∧ rowInPlace exT exL 0 0 = true ∧ ro
 -- history() asked for X of row 1 (line 2) and then P of row 0 reads them in line order
 example : (scanSel (fun l => readTableLineTOUGH2 l 3 exT.numpos) (colIdx exT.cols) (sortSel [(2, ['X'], false, 0), (0, ['P'], false, 1)]) 0
     (exL.headD []) exL.tail).map (·.1) = .ok [(1, .fin false 99013 2), (0, .fin true 66842 (-4))] := by decide
+
+/-! ### … from the REGION predicate of the table instead of `rowInPlace` (TOUGH2 family)
+
+  `Props.C05.TableRegionT t header segs` (decidable on concrete lines) describes the lines of a table as the layout recorded at
+  set-up sees them: `header_skiplines` lines, then for every entry of `skiplines` one printed data line followed by that many lines.
+  On such a region the offset `rowOffset t.skips k` at which the scan expects the k-th row line IS the k-th printed data line
+  (`Proofs.Series2Region.lineAt_region`), and stepping is known to succeed (`Props.C05.table_read_TOUGH2`), so neither
+  `rowInPlace` nor a successful `readRowsL` has to be assumed. -/
+
+open Proofs.Whole Proofs.Series2Region in
+/-- PARTIAL (one table at one result time; decidable hypothesis `TableRegionT`; the selected rows are printed once — no later data
+    line of the table names the same row; the line index of an entry is `rowOffset t.skips k` for the data line `k` it stands for).
+    For a reader whose `read_table_line` is `read_table_line_TOUGH2` (TOUGH2, TOUGH2_MP, TOUGH3, TOUGHREACT, TOUGH+): the stepping
+    reader `read_table_TOUGH2`, started at the first line of the region, succeeds and builds table `t'`; for ANY selection `ts` (any
+    number, any order, repeats, reversed names) history()'s one-pass read over the lines from the first data line on returns, entry
+    by entry in sorted order, the cell of row `row e` (the row NAMED by the key printed on that data line), column `e.col`, of `t'`,
+    negated for a reversed name — KeyError on both sides for an unknown column.
+    Not proved: that set-up records `row_line[row e] = rowOffset t.skips k` (the loop of setup_table_TOUGH2 counts lines exactly
+    as `skiplines` sums them — evaluated per file by the correspondence), and `Aligned`. -/
+theorem history_table_eq_stepping_region_partial (fam : Fam) (tn : String) (t : Table) (s : Rd) (header : List Str)
+    (segs : List (Str × List Str)) (after : List Str)
+    (hfam : (bound fam "read_table_line" == "read_table_line_AUTOUGH2") = false)
+    (ht : s.tables.lookup tn = some t)
+    (hrest : s.pos.rest = header ++ (flat segs ++ after))
+    (hwf : Props.C05.TableRegionT t header segs)
+    (ts : List Sel) (row : Sel → Nat)
+    (hsel : ∀ e ∈ ts, ∃ (k : Nat) (d : Str) (vals : List FVal), (segs.map (·.1))[k]? = some d ∧ e.1 = (rowOffset t.skips k : Nat) ∧
+        rowOfLineT t.rows t.keyPos t.cols.length t.numpos d = some (row e, vals) ∧
+        ∀ (k' : Nat) d', k < k' → (segs.map (·.1))[k']? = some d' →
+          ∀ v', rowOfLineT t.rows t.keyPos t.cols.length t.numpos d' ≠ some (row e, v')) :
+    ∃ s' t', (readTableTOUGH2 tn).run s = .ok ((), s') ∧ s'.tables.lookup tn = some t' ∧
+      (scanSel (readTableLineOf fam t) (colIdx t.cols) (sortSel ts) 0 ((flat segs ++ after).headD []) (flat segs ++ after).tail).map (·.1)
+        = (sortSel ts).mapM (fun e => steppingCell t' (row e) e) := by
+  obtain ⟨s', t', hrun, _, htab, hframe, _, hline, _⟩ := Props.C05.table_read_TOUGH2 tn t s header segs after ht hrest hwf
+  refine ⟨s', t', hrun, htab, ?_⟩
+  rw [readTableLineOf_T fam t hfam]
+  have h1 := Proofs.History.scanSel_eq (fun l => readTableLineTOUGH2 l t.cols.length t.numpos) (colIdx t.cols) (flat segs ++ after)
+    (sortSel ts) 0 ((flat segs ++ after).headD []) (flat segs ++ after).tail
+    (by rw [← Proofs.History.headD_drop]; rfl) (by rw [← List.drop_one]) (Proofs.History.sortSel_ascending ts 0 (by
+      intro e he; obtain ⟨k, _, _, _, hk, _⟩ := hsel e he; rw [hk]; exact Int.natCast_nonneg _))
+  refine h1.trans ?_
+  apply mapM_congr_mem
+  intro e he
+  obtain ⟨k, d, vals, hkd, hek, hrow, hlater⟩ := hsel e ((Proofs.History.sortSel_perm ts).mem_iff.mp he)
+  obtain ⟨_, _, _, hv, hl⟩ := (rowOfLineT_spec _ _ _ _ _ _ _).mp hrow
+  have hat : Proofs.History.lineAt (flat segs ++ after) e.1.toNat = d := by
+    rw [hek, Int.toNat_natCast, ← hwf.2.1]; exact lineAt_region segs after k d hkd
+  exact cellOf_eq_steppingCell_row _ t.cols t' _ (by rw [hframe]) e (row e) vals (by rw [hat]; exact hv) hl
+    (hline k d (row e) vals hkd hrow hlater)
+
+-- the table of C05's example (header line, blank line, a data line followed by a blank line, a data line, the `@@@@@` line)
+private def exT2 : Table :=
+  { mkTable [['P'], ['T'], ['X']] #[[" AA 1".toList], [" BA 1".toList]] 1 false with
+    keyPos := [1], numpos := [some 12, some 24, some 36, some 49], headerSkip := 2, skips := [1, 0] }
+private def exHdr : List Str := [" ELEM. INDEX P T X\n".toList, "\n".toList]
+private def exSegs : List (Str × List Str) :=
+  [("  AA 1     1 0.99013E+07 0.00000E+00-0.12409E+03\n".toList, ["\n".toList]),
+   ("  BA 1     2 0.94153E+07 0.19209-103-0.66842E+01\n".toList, [])]
+private def exRdT : Rd :=
+  { all := exHdr ++ (Proofs.Whole.flat exSegs ++ [" @@@@@@@@@@\n".toList]), isOutputData := false,
+    pos := ⟨0, exHdr ++ (Proofs.Whole.flat exSegs ++ [" @@@@@@@@@@\n".toList])⟩, fam := Fam.tough2, tables := [("element", exT2)] }
+example : (bound Fam.tough2 "read_table_line" == "read_table_line_AUTOUGH2") = false ∧ exRdT.tables.lookup "element" = some exT2 ∧
+    exRdT.pos.rest = exHdr ++ (Proofs.Whole.flat exSegs ++ [" @@@@@@@@@@\n".toList]) ∧ Props.C05.TableRegionT exT2 exHdr exSegs :=
+  ⟨by decide, rfl, rfl, by decide⟩
+-- the entry (line 2, X) stands for data line k = 1, which names row 1 and is the last data line: the hypothesis on entries holds
+example : (exSegs.map (·.1))[1]? = some exSegs[1].1 ∧ ((2 : Int) = (rowOffset exT2.skips 1 : Nat)) ∧
+    Proofs.Whole.rowOfLineT exT2.rows exT2.keyPos exT2.cols.length exT2.numpos exSegs[1].1
+      = some (1, [.fin false 94153 2, .fin false 19209 (-108), .fin true 66842 (-4)]) := by decide
+
+/-! ### the same for the AUTOUGH2 row loop (terminator-driven: rows are filled in printing order)
+
+  The region of an AUTOUGH2 table is `Proofs.Whole.autRegion A b B b2 Bl D term tail` (title block, blank line, column header,
+  blank lines, printed data lines `D`, the terminator line, what follows), well-formed for the set-up table `t` when
+  `Props.C05.TableRegionA` holds (decidable on concrete lines).  AUTOUGH2 tables have no `row_line`: the line index history() uses
+  for row `j` is `j` itself, counted from the first results line = the first data line. -/
+
+open Proofs.Whole Proofs.Series2Aut in
+/-- PARTIAL (one table at one result time; explicit decidable hypothesis `TableRegionA` on the lines of the table; every selected
+    line index addresses a printed data line).  For a reader whose `read_table_line` is `read_table_line_AUTOUGH2`: the stepping
+    reader (`read_table_AUTOUGH2`, started behind the table's keyword line) succeeds on the region and builds table `t'`; for ANY
+    selection `ts` of rows (any number, any order, repeats, reversed names) the one-pass read of history() over the lines from the
+    first data line on returns, entry by entry in sorted order, the cell of row `e.1` (= its line index), column `e.col`, of `t'`,
+    negated for a reversed name — and raises KeyError exactly when the column does not exist.
+    Not proved here: that skip_to_table_AUTOUGH2 brings the file to the column header of this region (`Aligned`; checked on every
+    run by the correspondence); `history_scan_starts_at_first_data_line_AUTOUGH2` below covers skip_to_results_line from there. -/
+theorem history_table_eq_stepping_AUTOUGH2_partial (fam : Fam) (tn : String) (t : Table) (s : Rd)
+    (A : List Str) (b : Str) (B : List Str) (b2 : Str) (Bl D : List Str) (term : Str) (tail : List Str)
+    (hfam : (bound fam "read_table_line" == "read_table_line_AUTOUGH2") = true)
+    (ht : s.tables.lookup tn = some t)
+    (hrest : s.pos.rest = autRegion A b B b2 Bl D term tail)
+    (hwf : Props.C05.TableRegionA tn t A b B b2 Bl D term)
+    (ts : List Sel) (hsel : ∀ e ∈ ts, 0 ≤ e.1 ∧ e.1 < D.length) :
+    ∃ s' t', (readTableAUTOUGH2 tn).run s = .ok ((), s') ∧ s'.tables.lookup tn = some t' ∧
+      (scanSel (readTableLineOf fam t) (colIdx t.cols) (sortSel ts) 0 ((D ++ [term]).headD []) ((D ++ [term]).tail ++ tail)).map (·.1)
+        = (sortSel ts).mapM (fun e => steppingCell t' e.1.toNat e) := by
+  obtain ⟨s', t', hrun, _, htab, hframe, _, hrows, _⟩ := Props.C05.table_read_AUTOUGH2 tn t s A b B b2 Bl D term tail ht hrest hwf
+  refine ⟨s', t', hrun, htab, ?_⟩
+  rw [readTableLineOf_A fam t hfam]
+  exact scan_eq_stepping_A t.cols t' D term tail (t.numpos.headD none) (by rw [hframe]) hrows ts hsel
+
+open Proofs.Series2Aut in
+/-- … and `L = D ++ term :: tail` IS where history() starts its pass: from the column header of the region (behind the first blank
+    line, where skip_to_table_AUTOUGH2's `skip_to_blank; skip_to_nonblank` leave the file) `skip_to_results_line` stops at the
+    first printed data line, when no line of the header block shows the awaited number of floats and the first data line does. -/
+theorem history_scan_starts_at_first_data_line_AUTOUGH2 (e : Int) (B : List Str) (b2 : Str) (Bl : List Str) (d : Str) (D' : List Str)
+    (term : Str) (tail : List Str) (n : Nat)
+    (hhead : ∀ x ∈ B ++ b2 :: Bl, isResultsLine (strip x) e = false) (hd : isResultsLine (strip d) e = true) :
+    skipToResultsLineL e (B ++ b2 :: (Bl ++ (((d :: D') ++ [term]) ++ tail))) n 1
+      = some (1 + (B.length + 1 + Bl.length), ⟨n + (B.length + 1 + Bl.length), ((d :: D') ++ [term]) ++ tail⟩) :=
+  skipToResultsLine_region_A e B b2 Bl d D' term tail n hhead hd
+
+-- an AUTOUGH2 element table of two rows between its two `EEEEE` lines; the reader stands behind the first
+private def exAT : Table := { mkTable [['P'], ['T']] #[["A 1".toList], ["B 1".toList]] 1 false with keyPos := [1], numpos := [some 8] }
+private def exAD : List Str := [" A 1  1  1.5 2.5\n".toList, " B 1  2  3.5 4.5\n".toList]
+private def exARd : Rd :=
+  let ls := Proofs.Whole.autRegion [" a title line\n".toList] "\n".toList [" ELEM INDEX P T\n".toList] "\n".toList [] exAD " EEEEE\n".toList ["\n".toList]
+  { all := ls, isOutputData := false, pos := ⟨2, ls⟩, fam := Fam.autough2, tables := [("element", exAT)] }
+example : (bound Fam.autough2 "read_table_line" == "read_table_line_AUTOUGH2") = true ∧ exARd.tables.lookup "element" = some exAT ∧
+    exARd.pos.rest = Proofs.Whole.autRegion [" a title line\n".toList] "\n".toList [" ELEM INDEX P T\n".toList] "\n".toList [] exAD " EEEEE\n".toList ["\n".toList] ∧
+    Props.C05.TableRegionA "element" exAT [" a title line\n".toList] "\n".toList [" ELEM INDEX P T\n".toList] "\n".toList [] exAD " EEEEE\n".toList ∧
+    (∀ e ∈ [((1 : Int), ['T'], false, 0), (0, ['P'], true, 1), (1, ['P'], false, 2)], 0 ≤ e.1 ∧ e.1 < (exAD.length : Int)) :=
+  ⟨by decide, rfl, rfl, by decide, by decide⟩
+-- the pass over the data lines: T of row 1, -P of row 0 (reversed name), P of row 1, returned in line order
+example : (scanSel (readTableLineOf Fam.autough2 exAT) (colIdx exAT.cols) (sortSel [(1, ['T'], false, 0), (0, ['P'], true, 1), (1, ['P'], false, 2)]) 0
+    ((exAD ++ [" EEEEE\n".toList]).headD []) ((exAD ++ [" EEEEE\n".toList]).tail ++ ["\n".toList])).map (·.1)
+    = .ok [(1, .fin true 15 (-1)), (2, .fin false 35 (-1)), (0, .fin false 45 (-1))] := by decide +kernel
+-- skip_to_results_line (2 floats awaited) from the column header stops at the first data line
+example : (∀ x ∈ [" ELEM INDEX P T\n".toList] ++ "\n".toList :: [], isResultsLine (strip x) 2 = false) ∧
+    isResultsLine (strip " A 1  1  1.5 2.5\n".toList) 2 = true := by decide
 
 /-! ### over all result times: one value per result time, in time order
 
